@@ -6,9 +6,9 @@ open RtcModel.Gate RtcModel.Drv
 def bit (c : Char) : Bool := c = '1'
 
 /-- per-transport config `<req><obs><lis><rtcpLis>` -/
-def parseTr (t : String) : Option Tr :=
+def parseTr (t : String) : Option (Tr Sym) :=
   match t.toList with
-  | [r, o, l, q] => some { required := bit r, keys := none, bridge := none,
+  | [r, o, l, q] => some { required := bit r, sess := none, bridge := none,
                            listener := bit l, rtcpListener := bit q, observer := bit o }
   | _ => none
 
@@ -17,12 +17,15 @@ def parseWire (w : String) : Option Wire :=
   | ['c'] => some .clear
   | ['g'] => some .garbage
   | 'o' :: ds => (String.ofList ds).toNat?.map (fun k => .prot k true true)
-  | 'b' :: ds => (String.ofList ds).toNat?.map (fun k => .prot k false true)
   | 'O' :: ds => (String.ofList ds).toNat?.map (fun k => .prot k true false)
-  | 'B' :: ds => (String.ofList ds).toNat?.map (fun k => .prot k false false)
+  -- unauthentic shapes: b flipped tag byte, t truncated tag, e SRTCP E bit cleared, y replay
+  | c :: ds =>
+    if c = 'b' ∨ c = 't' ∨ c = 'e' ∨ c = 'y' then (String.ofList ds).toNat?.map (fun k => .prot k false true)
+    else if c = 'B' ∨ c = 'T' ∨ c = 'E' ∨ c = 'Y' then (String.ofList ds).toNat?.map (fun k => .prot k false false)
+    else none
   | _ => none
 
-def parseOp (t : String) : Option Op :=
+def parseOp (t : String) : Option (Op Sym) :=
   match fields t with
   | ["k", t, k] => do some (.installKeys (← t.toNat?) (← k.toNat?))
   | ["sr", t] => do some (.sendRtp (← t.toNat?))
@@ -35,6 +38,7 @@ def parseOp (t : String) : Option Op :=
   | ["br", t, g, v] => do some (.setBridge (← t.toNat?) ⟨← g.toNat?, some (← v.toNat?)⟩)
   | ["bc", t] => do some (.clearBridge (← t.toNat?))
   | ["cl", t] => do some (.close (← t.toNat?))
+  | ["fl", t, l, r, o] => do some (.setFlags (← t.toNat?) (l = "1") (r = "1") (o = "1"))
   | _ => none
 
 def showProv : Prov → String
@@ -66,10 +70,10 @@ def handle (stream : String) (args : List String) : String :=
       match trs.mapM parseTr with
       | none => "bad-cfg"
       | some ts =>
-        let dflt : Tr := { required := false, keys := none, bridge := none, listener := false,
-                           rtcpListener := false, observer := false }
-        let s0 : St := fun i => ts.getD i dflt
-        let rec go (s : St) (ops : List String) (acc : List String) : List String :=
+        let dflt : Tr Sym := { required := false, sess := none, bridge := none, listener := false,
+                               rtcpListener := false, observer := false }
+        let s0 : St Sym := fun i => ts.getD i dflt
+        let rec go (s : St Sym) (ops : List String) (acc : List String) : List String :=
           match ops with
           | [] => acc.reverse
           | t :: rest =>
